@@ -191,7 +191,7 @@ def s7(ck, an):
     else:
         ord_before(ck, fr, "S7.rate-seeded-first", rate_seed, procs, "the 0.0 seed of the rate book", "processing of transmitter events")
         for c in rate_seed:
-            ev = c.args[0]
+            ev = deref(fr, c.args[0])[0]
             vals = [const_value(a) for a in ev.args[2:4]] if isinstance(ev, ast.Call) else []
             ck.check(vals == [0.0, 0.0], "CONST", "S7.rate-seed-zero", fr.f.short, fr.loc(c), "the rate book is seeded with bid = ask = 0.0", f"rate seed quotes are {vals}", construct=stmt_text(c))
     # the rate book queried is the fee schedule's interest-rate contract (same key the seed and the data use)
